@@ -108,4 +108,7 @@ theorem kt_inds_eq (ph ti : List Int) (n nt : Nat) :
 KtGaussian1D -/
 theorem clamp_table_eq : clamp_KtUniform = some (0, 1) ∧ clamp_KtGaussian1D = none := by decide
 
+/-- both Poisson-disc radii are clipped to at least one pixel before the `_poisson` kernel sees them -/
+theorem poisson_radius_floor_eq : poisson_radius_floor = poissonRadiusFloor := by decide
+
 end DirectVerif.Bridge.C04
